@@ -44,6 +44,12 @@ func (wrapper DelegationHooksWrapper) AfterUndelegationStarted(
 	) {
 		// if the operator is opting out, we need to use the finish epoch of the opt out.
 		unbondingCompletionEpoch = wrapper.keeper.GetOperatorOptOutFinishEpoch(ctx, operator)
+		if unbondingCompletionEpoch < 0 {
+			// the opt out finishes in this very block: its epoch ended in BeginBlock (which
+			// removed the finish epoch) and the key removal is completed in EndBlock. the
+			// undelegation matures together with the opt out, so there is nothing to hold.
+			return nil
+		}
 		// even if the operator opts back in, the undelegated vote power does not reappear
 		// in the picture. slashable events between undelegation and opt in cannot occur
 		// because the operator is not in the validator set.
